@@ -330,6 +330,100 @@ theorem nonneg (t : Tbl ℝ) (atoms : List (Atom × ℝ)) (ρ w : ℝ)
   exact ⟨a1, a2, a3, a4, a5,
     calculateScattering_pen_pos _ _ _ _ hN h.wavelength.le hsig⟩
 
+/-! ### regrouping when every atom has data: zero counts are harmless -/
+
+/-- drop the entries with count 0 -/
+noncomputable def nonzero (l : List (Atom × ℝ)) : List (Atom × ℝ) :=
+  l.filter (fun e => !decide (e.2 = 0))
+
+theorem lookupD_of_not_mem {l : List (Atom × ℝ)} {a : Atom} (h : a ∉ l.map Prod.fst) :
+    lookupD l a = 0 := by
+  induction l with
+  | nil => rfl
+  | cons e r ih =>
+    obtain ⟨b, y⟩ := e
+    simp only [List.map_cons, List.mem_cons, not_or] at h
+    have hb : ¬ b = a := fun e => h.1 e.symm
+    simp only [lookupD, hb, if_false]
+    exact ih h.2
+
+theorem sum_map_nonzero (f : Atom × ℝ → ℝ) (hf : ∀ e, e.2 = 0 → f e = 0) (l : List (Atom × ℝ)) :
+    ((nonzero l).map f).sum = (l.map f).sum := by
+  unfold nonzero
+  induction l with
+  | nil => rfl
+  | cons e r ih =>
+    by_cases he : e.2 = 0
+    · simp [List.filter_cons, he, hf e he, ih]
+    · simp [List.filter_cons, he, ih]
+
+theorem accSums_nonzero (t : Tbl ℝ) (w : ℝ) (a : Acc ℝ) (l : List (Atom × ℝ)) :
+    accSums t w a (nonzero l) = accSums t w a l := by
+  unfold accSums
+  rw [sum_map_nonzero (fun e => t.atomMass e.1 * e.2) (by intro e he; simp [he]),
+    sum_map_nonzero (fun e => e.2) (by intro e he; simp [he]),
+    sum_map_nonzero (fun e => e.2 * (pa t w e.1).1.1) (by intro e he; simp [he]),
+    sum_map_nonzero (fun e => e.2 * (pa t w e.1).1.2) (by intro e he; simp [he]),
+    sum_map_nonzero (fun e => e.2 * (pa t w e.1).2) (by intro e he; simp [he])]
+
+theorem keysNodup_nonzero {l : List (Atom × ℝ)} (h : KeysNodup l) : KeysNodup (nonzero l) := by
+  unfold KeysNodup nonzero at *
+  exact (List.Sublist.map Prod.fst List.filter_sublist).nodup h
+
+theorem lookupD_nonzero {l : List (Atom × ℝ)} (h : KeysNodup l) (a : Atom) :
+    lookupD (nonzero l) a = lookupD l a := by
+  induction l with
+  | nil => rfl
+  | cons e r ih =>
+    obtain ⟨b, y⟩ := e
+    have hk' : KeysNodup r := by
+      unfold KeysNodup at h ⊢; simp only [List.map_cons, List.nodup_cons] at h; exact h.2
+    by_cases hy : y = 0
+    · have : nonzero ((b, y) :: r) = nonzero r := by simp [nonzero, List.filter_cons, hy]
+      rw [this, ih hk']
+      simp only [lookupD]
+      by_cases hb : b = a
+      · subst hb
+        have hnot : b ∉ r.map Prod.fst := by
+          unfold KeysNodup at h; simp only [List.map_cons, List.nodup_cons] at h; exact h.1
+        have h0 : lookupD r b = 0 := lookupD_of_not_mem hnot
+        simp [h0, hy]
+      · simp [hb]
+    · have : nonzero ((b, y) :: r) = (b, y) :: nonzero r := by simp [nonzero, List.filter_cons, hy]
+      rw [this]
+      simp only [lookupD]
+      split
+      · rfl
+      · exact ih hk'
+
+theorem nonzero_ne (l : List (Atom × ℝ)) : ∀ e ∈ nonzero l, e.2 ≠ 0 := by
+  intro e he
+  unfold nonzero at he
+  simpa using (List.mem_filter.mp he).2
+
+/-- **regrouping, all atoms with data**: two atom dicts with the same counts give the same result,
+    whether or not some counts are zero -/
+theorem same_counts_invariant (t : Tbl ℝ) {l₁ l₂ : List (Atom × ℝ)} (h1 : KeysNodup l₁)
+    (h2 : KeysNodup l₂) (hd1 : AllData t l₁) (hd2 : AllData t l₂)
+    (hc : ∀ a, lookupD l₁ a = lookupD l₂ a) (ρ w : ℝ) :
+    neutronScattering t l₁ ρ w = neutronScattering t l₂ ρ w := by
+  rw [neutronScattering_allData t l₁ ρ w hd1, neutronScattering_allData t l₂ ρ w hd2,
+    ← accSums_nonzero t w _ l₁, ← accSums_nonzero t w _ l₂]
+  have hp : (nonzero l₁).Perm (nonzero l₂) :=
+    perm_of_same_counts (keysNodup_nonzero h1) (keysNodup_nonzero h2) (nonzero_ne l₁) (nonzero_ne l₂)
+      (fun a => by rw [lookupD_nonzero h1, lookupD_nonzero h2]; exact hc a)
+  rw [accSums_perm t w _ hp]
+
+theorem regroup_invariant_allData (t : Tbl ℝ) (s₁ s₂ : Items ℝ) (ρ w : ℝ)
+    (hc : ∀ a, s₁.cnt a = s₂.cnt a) (hd1 : AllData t s₁.atoms) (hd2 : AllData t s₂.atoms) :
+    neutronScattering t s₁.atoms ρ w = neutronScattering t s₂.atoms ρ w := by
+  apply same_counts_invariant t
+    (Items.keysNodup_countAcc s₁ (by simp [KeysNodup])) (Items.keysNodup_countAcc s₂ (by simp [KeysNodup]))
+    hd1 hd2
+  intro a
+  show lookupD s₁.atoms a = lookupD s₂.atoms a
+  rw [Items.atoms_lookup, Items.atoms_lookup]; exact hc a
+
 /-- the running sums as C02's count-weighted sums -/
 theorem accSums_zero_eq_wsum (t : Tbl ℝ) (w : ℝ) (l : List (Atom × ℝ)) :
     accSums t w Acc.zero l =
